@@ -4082,9 +4082,15 @@ class PartitionTreeBuilder:
                 seed=rng,
                 **partition_opts,
             )
+            groups = separate(leaves, membership)
+            if len(groups) >= len(leaves):
+                # the partitioner merged nothing, another round would see
+                # exactly the same input -> contract all remaining
+                break
+
             leaves = [
                 tree.contract_nodes(group, check=check, optimize=sub_optimize)
-                for group in separate(leaves, membership)
+                for group in groups
             ]
 
         if len(leaves) > 1:
